@@ -230,7 +230,7 @@ def add_overrides(rng, spec, n_parameters, prob=0.5):
             if rng.random() < 0.5:
                 ov["auxdata"] = [_round(rng.uniform(-0.7, 0.7), 3)]
             if rng.random() < 0.25:
-                ov["fixed"] = True
+                ov["fixed"] = rng.random() < 0.7
         elif tset == {"normfactor"}:
             if rng.random() < 0.6:
                 ov["inits"] = [_round(rng.uniform(0.3, 2.0), 3)]
@@ -252,6 +252,8 @@ def add_overrides(rng, spec, n_parameters, prob=0.5):
                 ov["sigmas"] = [_round(rng.uniform(0.02, 0.3), 4) for _ in range(n)]
             if rng.random() < 0.3:
                 ov["bounds"] = [[_round(rng.uniform(1e-3, 0.3), 4), _round(rng.uniform(3, 9), 2)] for _ in range(n)]
+            if rng.random() < 0.3:
+                ov["fixed"] = rng.random() < 0.5  # an explicit False must release bins that are fixed by default
         elif tset == {"shapesys"}:
             if rng.random() < 0.5:
                 ov["inits"] = [_round(rng.uniform(0.8, 1.2), 3) for _ in range(n)]
@@ -259,6 +261,8 @@ def add_overrides(rng, spec, n_parameters, prob=0.5):
                 ov["auxdata"] = [_round(rng.uniform(5, 200), 3) for _ in range(n)]
             if rng.random() < 0.4:
                 ov["factors"] = [_round(rng.uniform(5, 200), 3) for _ in range(n)]
+            if rng.random() < 0.3:
+                ov["fixed"] = rng.random() < 0.5
         else:
             continue
         if len(ov) > 1:
